@@ -164,7 +164,7 @@ func TestRAC_C06(t *testing.T) {
 	}
 	maxLeaves, maxBlocks := 6, 3
 	if res.thorough() {
-		maxLeaves, maxBlocks = 7, 4
+		maxLeaves, maxBlocks = 7, 3 // 7 / 4 does not finish within 45 minutes
 	}
 	n := 0
 	run := func(h racHistory, depthAll bool) { runUndoHistory(res, cfgs, h, &n, false) }
